@@ -6,10 +6,18 @@ import traceback
 
 
 def dispatch(prop):
-    if prop in ('C01', 'C02', 'C03'):
+    if prop in ('C01', 'C02', 'C03', 'C14', 'C18'):
         from . import check_pipeline
         return (lambda tier: check_pipeline.run(prop, tier)), \
                (lambda path: check_pipeline.replay(prop, path))
+    if prop == 'C17':
+        from . import check_bucket
+        return (lambda tier: check_bucket.run(prop, tier)), \
+               (lambda path: check_bucket.replay(prop, path))
+    if prop == 'C15':
+        from . import check_shards
+        return (lambda tier: check_shards.run(prop, tier)), \
+               (lambda path: check_shards.replay(prop, path))
     if prop in ('C04', 'C05', 'C06', 'C07'):
         from . import check_conc
         return (lambda tier: check_conc.run(prop, tier)), \
